@@ -586,11 +586,24 @@ def model(plan, lib):
                         pat += re.escape(s) + rb"\n"
         ex.stdout = re.compile(pat, re.S)
 
-    if not ex.stderr_nonempty and not lib["noise"]:
+    # Values whose rendering the model does not cover (DIEs, attributes, ...)
+    # are printed by the CLI's dumper, which runs queries of its own on them
+    # and can fail where the plain execution did not (a DIE of a damaged sample
+    # file): then that execution counts as failed.  The model cannot know, so
+    # it steps back: any status the two readings allow, stdout not matched.
+    unmodelled = any(show(v, True) is None for c in combos for st in c["results"] for v in st)
+    if unmodelled and not count:
+        if not quiet:
+            ex.status = set(ex.status) | {2}
+        ex.stdout = None if not quiet else ex.stdout
+        ex.unmodelled = True
+    if not ex.stderr_nonempty and not lib["noise"] and not getattr(ex, "unmodelled", False):
         ex.stderr_empty = True
-    if nomsg and not lib["noise"]:
+    if nomsg and not lib["noise"] and not getattr(ex, "unmodelled", False):
         # with -s the driver's own messages are silenced
         ex.stderr_empty = True
+        ex.stderr_nonempty = False
+    elif nomsg:
         ex.stderr_nonempty = False
     return ex
 
@@ -612,6 +625,9 @@ def judge(plan, lib, resp):
         k = "cli:stdout-under-q" if ex.stdout.pattern == b"" and any(
             o in ("-q", "--quiet", "--silent") for o in plan["cli"]["opts"]) else "cli:stdout"
         return (k, "%s\nstdout %r\ndoes not match %r\nstderr=%r" % (argv, out[:600], ex.stdout.pattern[:600], err[:300]))
+    if getattr(ex, "unmodelled", False) and st == 2 and not err and not any(
+            o in ("-s", "--no-messages") for o in plan["cli"]["opts"]):
+        return ("cli:stderr-missing", "%s\nexit status 2 without a diagnostic on stderr" % argv)
     if ex.stderr_nonempty and not err:
         return ("cli:stderr-missing", "%s\nexpected a diagnostic on stderr, got none (status %d)" % (argv, st))
     if ex.stderr_empty and err:
